@@ -1,6 +1,7 @@
 import CasbinModel.Enforcer
 import CasbinModel.Lemmas.Store
 import CasbinModel.Lemmas.Batch
+import CasbinModel.Lemmas.Load
 /-!
 # C14 — Change notifications are a faithful changelog
 
@@ -264,6 +265,335 @@ theorem replica_follows_removeFiltered (e : Enforcer) (sec pt : String) (idx : N
         have hnd : d.policy.Nodup := by have := hw sec pt; rwa [hd] at this
         rw [hd, OrdSet.removeAll_filter d.policy hnd]
 
+/-- **Replica follows a single removal** -/
+theorem replica_follows_remove (e : Enforcer) (sec pt : String) (rule : Rule) (hs : e.autoSave = false) (hl : Live e) :
+    let r := e.removePolicy sec pt rule
+    ((r.1.log.drop e.log.length).foldl applyEvent e.store).getPolicy = r.1.store.getPolicy := by
+  obtain ⟨h1, h2⟩ := remove_notifies e sec pt rule hs hl
+  simp only at h1 h2 ⊢
+  rw [h1, h2]
+  simp only [List.drop_left]
+  cases hc : (e.store.removePolicy sec pt rule).2 with
+  | true => simp [applyEvent]
+  | false =>
+    simp only [Bool.false_eq_true, if_false, List.foldl]
+    funext sec' pt'
+    rw [Store.removePolicy_getPolicy]
+    split
+    · rename_i hcond
+      obtain ⟨a1, a2, a3⟩ := hcond; subst a1 a2
+      -- no change reported: the rule was not stored
+      unfold Store.removePolicy at hc
+      cases hf : e.store.find sec pt with
+      | none => rw [hf] at a3; cases a3
+      | some d =>
+        simp only [hf] at hc
+        have hd : e.store.getPolicy sec pt = d.policy := by simp [Store.getPolicy, hf]
+        rw [hd]
+        have : rule ∉ d.policy := fun hin => by
+          have := (OrdSet.remove_flag d.policy rule).mpr hin
+          rw [hc] at this; cases this
+        exact (OrdSet.remove_absent this).symm
+    · rfl
+
+/-! ### Every history: the replica that folds the changelog stays equal to the primary -/
+
+/-- two stores hold the same rule lists under the same policy types -/
+def SEq (s1 s2 : Store) : Prop :=
+  (∀ sec pt, (s1.find sec pt).isSome = (s2.find sec pt).isSome) ∧ s1.getPolicy = s2.getPolicy
+
+theorem SEq.refl (s : Store) : SEq s s := ⟨fun _ _ => rfl, rfl⟩
+theorem SEq.trans {a b c : Store} (h1 : SEq a b) (h2 : SEq b c) : SEq a c :=
+  ⟨fun sec pt => (h1.1 sec pt).trans (h2.1 sec pt), h1.2.trans h2.2⟩
+
+theorem foldAdd_find (rules : List Rule) (s : Store) (sec pt sec' pt' : String) :
+    ((rules.foldl (fun s r => (s.addPolicy sec pt r).1) s).find sec' pt').isSome = (s.find sec' pt').isSome := by
+  induction rules generalizing s with
+  | nil => rfl
+  | cons r rs ih => simp only [List.foldl_cons]; rw [ih, Store.addPolicy_find]
+
+theorem foldRemove_find (rules : List Rule) (s : Store) (sec pt sec' pt' : String) :
+    ((rules.foldl (fun s r => (s.removePolicy sec pt r).1) s).find sec' pt').isSome = (s.find sec' pt').isSome := by
+  induction rules generalizing s with
+  | nil => rfl
+  | cons r rs ih => simp only [List.foldl_cons]; rw [ih, Store.removePolicy_find]
+
+/-- a replica applies an event the same way whatever its internal representation -/
+theorem applyEvent_congr {s1 s2 : Store} (h : SEq s1 s2) (ev : Event) : SEq (applyEvent s1 ev) (applyEvent s2 ev) := by
+  obtain ⟨hf, hg⟩ := h
+  have hg' : ∀ sec pt, s1.getPolicy sec pt = s2.getPolicy sec pt := fun sec pt => by rw [hg]
+  cases ev with
+  | addPolicy sec pt r =>
+    refine ⟨fun sec' pt' => ?_, ?_⟩
+    · simp only [applyEvent]; rw [Store.addPolicy_find, Store.addPolicy_find, hf]
+    · funext sec' pt'; simp only [applyEvent]; rw [Store.addPolicy_getPolicy, Store.addPolicy_getPolicy, hf, hg' sec pt, hg' sec' pt']
+  | addPolicies sec pt rs =>
+    refine ⟨fun sec' pt' => ?_, ?_⟩
+    · simp only [applyEvent]; rw [foldAdd_find, foldAdd_find, hf]
+    · funext sec' pt'; simp only [applyEvent]; rw [Store.foldAdd_getPolicy, Store.foldAdd_getPolicy, hf, hg' sec pt, hg' sec' pt']
+  | removePolicy sec pt r =>
+    refine ⟨fun sec' pt' => ?_, ?_⟩
+    · simp only [applyEvent]; rw [Store.removePolicy_find, Store.removePolicy_find, hf]
+    · funext sec' pt'; simp only [applyEvent]; rw [Store.removePolicy_getPolicy, Store.removePolicy_getPolicy, hf, hg' sec pt, hg' sec' pt']
+  | removePolicies sec pt rs =>
+    refine ⟨fun sec' pt' => ?_, ?_⟩
+    · simp only [applyEvent]; rw [foldRemove_find, foldRemove_find, hf]
+    · funext sec' pt'; simp only [applyEvent]; rw [Store.foldRemove_getPolicy, Store.foldRemove_getPolicy, hf, hg' sec pt, hg' sec' pt']
+  | removeFiltered sec pt rs =>
+    refine ⟨fun sec' pt' => ?_, ?_⟩
+    · simp only [applyEvent]; rw [foldRemove_find, foldRemove_find, hf]
+    · funext sec' pt'; simp only [applyEvent]; rw [Store.foldRemove_getPolicy, Store.foldRemove_getPolicy, hf, hg' sec pt, hg' sec' pt']
+  | savePolicy _ => exact ⟨hf, hg⟩
+  | clearPolicy =>
+    refine ⟨fun sec' pt' => ?_, ?_⟩
+    · simp only [applyEvent]; rw [find_clear, find_clear, hf]
+    · funext sec' pt'; simp only [applyEvent]; rw [getPolicy_clear', getPolicy_clear']
+
+theorem foldEvents_congr (evs : List Event) {s1 s2 : Store} (h : SEq s1 s2) :
+    SEq (evs.foldl applyEvent s1) (evs.foldl applyEvent s2) := by
+  induction evs generalizing s1 s2 with
+  | nil => exact h
+  | cons ev rest ih => exact ih (applyEvent_congr h ev)
+
+theorem applyEvent_find (s : Store) (ev : Event) (sec pt : String) :
+    ((applyEvent s ev).find sec pt).isSome = (s.find sec pt).isSome := by
+  cases ev with
+  | addPolicy sec' pt' r => simp only [applyEvent]; rw [Store.addPolicy_find]
+  | addPolicies sec' pt' rs => simp only [applyEvent]; rw [foldAdd_find]
+  | removePolicy sec' pt' r => simp only [applyEvent]; rw [Store.removePolicy_find]
+  | removePolicies sec' pt' rs => simp only [applyEvent]; rw [foldRemove_find]
+  | removeFiltered sec' pt' rs => simp only [applyEvent]; rw [foldRemove_find]
+  | savePolicy _ => rfl
+  | clearPolicy => simp only [applyEvent]; rw [find_clear]
+
+theorem foldEvents_find (evs : List Event) (s : Store) (sec pt : String) :
+    ((evs.foldl applyEvent s).find sec pt).isSome = (s.find sec pt).isSome := by
+  induction evs generalizing s with
+  | nil => rfl
+  | cons ev rest ih => simp only [List.foldl_cons]; rw [ih, applyEvent_find]
+
+/-- the five internal management calls -/
+inductive NOp where
+  | add (sec pt : String) (rule : Rule)
+  | remove (sec pt : String) (rule : Rule)
+  | addMany (sec pt : String) (rules : List Rule)
+  | removeMany (sec pt : String) (rules : List Rule)
+  | removeFiltered (sec pt : String) (idx : Nat) (vals : List String)
+
+def NOp.run (e : Enforcer) : NOp → Enforcer
+  | .add sec pt rule => (e.addPolicy sec pt rule).1
+  | .remove sec pt rule => (e.removePolicy sec pt rule).1
+  | .addMany sec pt rules => (e.addPolicies sec pt rules).1
+  | .removeMany sec pt rules => (e.removePolicies sec pt rules).1
+  | .removeFiltered sec pt idx vals => (e.removeFiltered sec pt idx vals).1
+
+/-- the configuration carried along a history: adapter out of the way, notifications live, rule lists duplicate free -/
+structure Ready (e : Enforcer) : Prop where
+  save : e.autoSave = false
+  live : Live e
+  wf : e.store.WF
+
+theorem linkUpdate_misc (x : Enforcer) (changed : Bool) (sec pt : String) (ins : Bool) (rules : List Rule) (ret : Res) :
+    (x.linkUpdate changed sec pt ins rules ret).1.autoSave = x.autoSave ∧
+    (x.linkUpdate changed sec pt ins rules ret).1.autoNotify = x.autoNotify ∧
+    (x.linkUpdate changed sec pt ins rules ret).1.callbacks = x.callbacks ∧
+    (x.linkUpdate changed sec pt ins rules ret).1.hasWatcher = x.hasWatcher := by
+  unfold Enforcer.linkUpdate
+  split
+  · exact ⟨rfl, rfl, rfl, rfl⟩
+  · split
+    · exact ⟨rfl, rfl, rfl, rfl⟩
+    · split <;> exact ⟨rfl, rfl, rfl, rfl⟩
+
+theorem emit_misc (x : Enforcer) (ev : Event) :
+    (x.emit ev).autoSave = x.autoSave ∧ (x.emit ev).autoNotify = x.autoNotify ∧
+    (x.emit ev).callbacks = x.callbacks ∧ (x.emit ev).hasWatcher = x.hasWatcher := by
+  unfold Enforcer.emit; split <;> exact ⟨rfl, rfl, rfl, rfl⟩
+
+theorem run_misc (e : Enforcer) (hs : e.autoSave = false) (op : NOp) :
+    (op.run e).autoSave = false ∧ (op.run e).autoNotify = e.autoNotify ∧
+    (op.run e).callbacks = e.callbacks ∧ (op.run e).hasWatcher = e.hasWatcher := by
+  cases op with
+  | add sec pt rule =>
+    simp only [NOp.run, Enforcer.addPolicy, hs, Bool.false_eq_true, if_false]
+    rw [(linkUpdate_misc _ _ _ _ _ _ _).1, (linkUpdate_misc _ _ _ _ _ _ _).2.1, (linkUpdate_misc _ _ _ _ _ _ _).2.2.1, (linkUpdate_misc _ _ _ _ _ _ _).2.2.2]
+    split
+    · rw [(emit_misc _ _).1, (emit_misc _ _).2.1, (emit_misc _ _).2.2.1, (emit_misc _ _).2.2.2]; exact ⟨rfl, rfl, rfl, rfl⟩
+    · exact ⟨rfl, rfl, rfl, rfl⟩
+  | remove sec pt rule =>
+    simp only [NOp.run, Enforcer.removePolicy, hs, Bool.false_eq_true, if_false]
+    rw [(linkUpdate_misc _ _ _ _ _ _ _).1, (linkUpdate_misc _ _ _ _ _ _ _).2.1, (linkUpdate_misc _ _ _ _ _ _ _).2.2.1, (linkUpdate_misc _ _ _ _ _ _ _).2.2.2]
+    split
+    · rw [(emit_misc _ _).1, (emit_misc _ _).2.1, (emit_misc _ _).2.2.1, (emit_misc _ _).2.2.2]; exact ⟨rfl, rfl, rfl, rfl⟩
+    · exact ⟨rfl, rfl, rfl, rfl⟩
+  | addMany sec pt rules =>
+    simp only [NOp.run, Enforcer.addPolicies, hs, Bool.false_eq_true, if_false]
+    rw [(linkUpdate_misc _ _ _ _ _ _ _).1, (linkUpdate_misc _ _ _ _ _ _ _).2.1, (linkUpdate_misc _ _ _ _ _ _ _).2.2.1, (linkUpdate_misc _ _ _ _ _ _ _).2.2.2]
+    split
+    · rw [(emit_misc _ _).1, (emit_misc _ _).2.1, (emit_misc _ _).2.2.1, (emit_misc _ _).2.2.2]; exact ⟨rfl, rfl, rfl, rfl⟩
+    · exact ⟨rfl, rfl, rfl, rfl⟩
+  | removeMany sec pt rules =>
+    simp only [NOp.run, Enforcer.removePolicies, hs, Bool.false_eq_true, if_false]
+    rw [(linkUpdate_misc _ _ _ _ _ _ _).1, (linkUpdate_misc _ _ _ _ _ _ _).2.1, (linkUpdate_misc _ _ _ _ _ _ _).2.2.1, (linkUpdate_misc _ _ _ _ _ _ _).2.2.2]
+    split
+    · rw [(emit_misc _ _).1, (emit_misc _ _).2.1, (emit_misc _ _).2.2.1, (emit_misc _ _).2.2.2]; exact ⟨rfl, rfl, rfl, rfl⟩
+    · exact ⟨rfl, rfl, rfl, rfl⟩
+  | removeFiltered sec pt idx vals =>
+    simp only [NOp.run, Enforcer.removeFiltered, hs, Bool.false_eq_true, if_false]
+    rw [(linkUpdate_misc _ _ _ _ _ _ _).1, (linkUpdate_misc _ _ _ _ _ _ _).2.1, (linkUpdate_misc _ _ _ _ _ _ _).2.2.1, (linkUpdate_misc _ _ _ _ _ _ _).2.2.2]
+    split
+    · rw [(emit_misc _ _).1, (emit_misc _ _).2.1, (emit_misc _ _).2.2.1, (emit_misc _ _).2.2.2]; exact ⟨rfl, rfl, rfl, rfl⟩
+    · exact ⟨rfl, rfl, rfl, rfl⟩
+
+/-- one call: the log grows by the events delivered, and folding exactly those into a replica equal to the old store
+gives the new store -/
+theorem step_follows (e : Enforcer) (h : Ready e) (op : NOp) :
+    ∃ evs, (op.run e).log = e.log ++ evs ∧ SEq (evs.foldl applyEvent e.store) (op.run e).store := by
+  obtain ⟨hs, hl, hw⟩ := h
+  -- the rule lists agree (the per-call theorems above); the policy types are those of the old store on both sides
+  have key : ∀ (e' : Enforcer) (evs : List Event), e'.log = e.log ++ evs →
+      ((e'.log.drop e.log.length).foldl applyEvent e.store).getPolicy = e'.store.getPolicy →
+      (∀ sec pt, (e'.store.find sec pt).isSome = (e.store.find sec pt).isSome) →
+      ∃ evs, e'.log = e.log ++ evs ∧ SEq (evs.foldl applyEvent e.store) e'.store := by
+    intro e' evs hlog hget hfind
+    refine ⟨evs, hlog, fun sec pt => ?_, ?_⟩
+    · rw [foldEvents_find, hfind]
+    · rw [hlog, List.drop_left] at hget; exact hget
+  cases op with
+  | add sec pt rule =>
+    obtain ⟨h1, h2⟩ := add_notifies e sec pt rule hs hl
+    exact key _ _ h2 (replica_follows_add e sec pt rule hs hl) (fun sec' pt' => by
+      show ((e.addPolicy sec pt rule).1.store.find sec' pt').isSome = _
+      rw [h1, Store.addPolicy_find])
+  | remove sec pt rule =>
+    obtain ⟨h1, h2⟩ := remove_notifies e sec pt rule hs hl
+    exact key _ _ h2 (replica_follows_remove e sec pt rule hs hl) (fun sec' pt' => by
+      show ((e.removePolicy sec pt rule).1.store.find sec' pt').isSome = _
+      rw [h1, Store.removePolicy_find])
+  | addMany sec pt rules =>
+    obtain ⟨h1, h2⟩ := addPolicies_notifies e sec pt rules hs hl
+    exact key _ _ h2 (replica_follows_addPolicies e sec pt rules hs hl) (fun sec' pt' => by
+      show ((e.addPolicies sec pt rules).1.store.find sec' pt').isSome = _
+      rw [h1]
+      unfold Store.addPolicies
+      cases e.store.find sec pt with
+      | none => rfl
+      | some d =>
+        simp only
+        split
+        · rfl
+        · exact Store.find_isSome_update e.store sec pt sec' pt' (fun pol => OrdSet.addAll pol rules))
+  | removeMany sec pt rules =>
+    obtain ⟨h1, h2⟩ := removePolicies_notifies e sec pt rules hs hl
+    exact key _ _ h2 (replica_follows_removePolicies e sec pt rules hs hl) (fun sec' pt' => by
+      show ((e.removePolicies sec pt rules).1.store.find sec' pt').isSome = _
+      rw [h1]
+      unfold Store.removePolicies
+      cases e.store.find sec pt with
+      | none => rfl
+      | some d =>
+        simp only
+        split
+        · rfl
+        · exact Store.find_isSome_update e.store sec pt sec' pt' (fun pol => OrdSet.removeAll pol rules))
+  | removeFiltered sec pt idx vals =>
+    obtain ⟨h1, h2⟩ := removeFiltered_notifies e sec pt idx vals hs hl
+    exact key _ _ h2 (replica_follows_removeFiltered e sec pt idx vals hs hl hw) (fun sec' pt' => by
+      show ((e.removeFiltered sec pt idx vals).1.store.find sec' pt').isSome = _
+      rw [h1]
+      unfold Store.removeFiltered
+      split
+      · rfl
+      · cases e.store.find sec pt with
+        | none => rfl
+        | some d =>
+          simp only
+          split
+          · rfl
+          · exact Store.find_isSome_update e.store sec pt sec' pt' (fun pol => pol.filter (fun r => !filterMatch idx vals r)))
+
+/-- the rule lists stay duplicate free (they are what `OrdSet` operations leave) -/
+theorem run_wf (e : Enforcer) (h : Ready e) (op : NOp) : (op.run e).store.WF := by
+  obtain ⟨hs, hl, hw⟩ := h
+  intro sec' pt'
+  cases op with
+  | add sec pt rule =>
+    show ((e.addPolicy sec pt rule).1.store.getPolicy sec' pt').Nodup
+    rw [(add_notifies e sec pt rule hs hl).1, Store.addPolicy_getPolicy]
+    split
+    · exact OrdSet.add_nodup (hw sec pt) rule
+    · exact hw sec' pt'
+  | remove sec pt rule =>
+    show ((e.removePolicy sec pt rule).1.store.getPolicy sec' pt').Nodup
+    rw [(remove_notifies e sec pt rule hs hl).1, Store.removePolicy_getPolicy]
+    split
+    · exact OrdSet.remove_nodup (hw sec pt) rule
+    · exact hw sec' pt'
+  | addMany sec pt rules =>
+    show ((e.addPolicies sec pt rules).1.store.getPolicy sec' pt').Nodup
+    rw [(addPolicies_notifies e sec pt rules hs hl).1]
+    unfold Store.addPolicies
+    cases e.store.find sec pt with
+    | none => exact hw sec' pt'
+    | some d =>
+      simp only
+      split
+      · exact hw sec' pt'
+      · rw [Store.getPolicy_update' e.store sec pt sec' pt' (fun pol => OrdSet.addAll pol rules)]
+        split
+        · exact OrdSet.addAll_nodup (hw sec pt) rules
+        · exact hw sec' pt'
+  | removeMany sec pt rules =>
+    show ((e.removePolicies sec pt rules).1.store.getPolicy sec' pt').Nodup
+    rw [(removePolicies_notifies e sec pt rules hs hl).1]
+    unfold Store.removePolicies
+    cases e.store.find sec pt with
+    | none => exact hw sec' pt'
+    | some d =>
+      simp only
+      split
+      · exact hw sec' pt'
+      · rw [Store.getPolicy_update' e.store sec pt sec' pt' (fun pol => OrdSet.removeAll pol rules)]
+        split
+        · exact OrdSet.removeAll_nodup (hw sec pt) rules
+        · exact hw sec' pt'
+  | removeFiltered sec pt idx vals =>
+    show ((e.removeFiltered sec pt idx vals).1.store.getPolicy sec' pt').Nodup
+    rw [(removeFiltered_notifies e sec pt idx vals hs hl).1]
+    unfold Store.removeFiltered
+    split
+    · exact hw sec' pt'
+    · cases e.store.find sec pt with
+      | none => exact hw sec' pt'
+      | some d =>
+        simp only
+        split
+        · exact hw sec' pt'
+        · rw [Store.getPolicy_update' e.store sec pt sec' pt' (fun pol => pol.filter (fun r => !filterMatch idx vals r))]
+          split
+          · exact (hw sec pt).filter _
+          · exact hw sec' pt'
+
+theorem run_ready (e : Enforcer) (h : Ready e) (op : NOp) : Ready (op.run e) := by
+  obtain ⟨m1, m2, m3, m4⟩ := run_misc e h.save op
+  exact ⟨m1, ⟨by rw [m2]; exact h.live.notify, by rw [m3]; exact h.live.one, by rw [m4]; exact h.live.watcher⟩, run_wf e h op⟩
+
+/-- **the changelog is faithful over every history** of the five management calls (accepted, without effect, on
+existing or unknown policy types): the watcher's log only grows, and a replica that started equal to the store and
+applies exactly the events delivered since then holds, under every policy type, the rules the primary holds -/
+theorem replica_history (ops : List NOp) (e : Enforcer) (h : Ready e) :
+    ∃ evs, (ops.foldl NOp.run e).log = e.log ++ evs ∧
+      SEq (evs.foldl applyEvent e.store) (ops.foldl NOp.run e).store := by
+  induction ops generalizing e with
+  | nil => exact ⟨[], by simp, SEq.refl _⟩
+  | cons op ops ih =>
+    obtain ⟨ev1, hl1, hs1⟩ := step_follows e h op
+    obtain ⟨evs', hl2, hs2⟩ := ih (op.run e) (run_ready e h op)
+    refine ⟨ev1 ++ evs', ?_, ?_⟩
+    · simp only [List.foldl_cons]; rw [hl2, hl1, List.append_assoc]
+    · simp only [List.foldl_cons, List.foldl_append]
+      exact SEq.trans (foldEvents_congr evs' hs1) hs2
+
 /-- when the adapter vetoes, nothing is delivered -/
 theorem rejected_add_silent (e : Enforcer) (sec pt : String) (rule : Rule) (hs : e.autoSave = true)
     (f : Fault) (rest : List Fault) (hp : e.adapter.plan = f :: rest) (hf : f = .err ∨ f = .refuse) :
@@ -280,5 +610,25 @@ def demo : Enforcer :=
 example : Live demo := ⟨rfl, rfl, rfl⟩
 example : (demo.addPolicy "p" "p" ["a"]).1.log = [Event.addPolicy "p" "p" ["a"]] := by decide
 example : ((demo.addPolicy "p" "p" ["a"]).1.addPolicy "p" "p" ["a"]).1.log = [Event.addPolicy "p" "p" ["a"]] := by decide
+
+/-- the history theorem's premise holds of a concrete enforcer -/
+theorem demo_ready : Ready demo := by
+  refine ⟨rfl, ⟨rfl, rfl, rfl⟩, ?_⟩
+  intro sec pt
+  have : demo.store.getPolicy sec pt = [] := by
+    unfold Store.getPolicy Store.find Store.sec
+    simp only [demo]
+    by_cases h1 : sec = "p"
+    · simp only [h1, if_true]
+      by_cases h2 : "p" = pt
+      · simp [List.find?, h2]
+      · simp [List.find?, h2]
+    · by_cases h2 : sec = "g"
+      · simp [h1, h2]
+      · simp [h1, h2]
+  rw [this]; exact List.nodup_nil
+example : ∃ evs, ([NOp.add "p" "p" ["a"], .removeMany "p" "p" [["a"]]].foldl NOp.run demo).log = demo.log ++ evs ∧
+    SEq (evs.foldl applyEvent demo.store) ([NOp.add "p" "p" ["a"], .removeMany "p" "p" [["a"]]].foldl NOp.run demo).store :=
+  replica_history _ demo demo_ready
 
 end Casbin.C14
